@@ -169,6 +169,16 @@ def chain_registry(M):
     R.models['G2Obj.__getitem__'] = g_getrow
     R.models['G2Row.__setitem__'] = r_set
     R.models['gradient._chain_rule.<locals>.combine_derivs'] = m_combine
+    import re
+    # (the same helper hoisted to module level / given a leading underscore keeps this contract)
+    R.models.patterns.append((re.compile(r'^gradient\.(_chain_rule\.<locals>\.)?_?combine_derivs$'), m_combine))
+
+    @model
+    def m_node_outside_contract(ip, args, kw):
+        # inside this target the combination of (adjoint, pre, post) is a callee under contract (chain/wiring); a tensor network
+        # built here means the code combines them some other way: not decided by this contract
+        raise Unsupported('_chain_rule builds a tensor network outside the helper whose contract this target uses')
+    R.lib_models['tensornetwork.Node'] = m_node_outside_contract
 
     def cell(i2, j):
         i = i2 / 2
